@@ -122,6 +122,31 @@ class PipeConfig(Config):
 
 
 CONFIG = PipeConfig()
+
+
+class LateConfig(PipeConfig):
+    """A project whose settings are loaded by the cli_context hook (Django-style): before the hook runs, and after it has
+    finished, the class answers with defaults that are NOT the project's (a larger TypedDict limit, the default rewriter)."""
+    ready = False
+
+    from contextlib import contextmanager
+
+    @contextmanager
+    def cli_context(self, command):
+        LateConfig.ready = True
+        try:
+            yield
+        finally:
+            LateConfig.ready = False
+
+    def max_typed_dict_size(self):
+        return super().max_typed_dict_size() if LateConfig.ready else 10
+
+    def type_rewriter(self):
+        return super().type_rewriter() if LateConfig.ready else mt.DEFAULT_REWRITER
+
+
+CONFIG_LATE = LateConfig()
 '''
 
 FUNCS = ["f0", "f1", "K.m", "K.c", "K.s", "K.p", "g0", "c0", "fa"]
@@ -145,6 +170,30 @@ def _setup():
     absmodel.TABLE.name(mtp_target.K)
     _W.update(dir=d, M=mtp_target, C=mtp_config, n=0)
     return _W
+
+
+def begin_generator(M, rt, call, truth):
+    """A g0 call that is started now (first value taken) and finished later by the returned function - in another tracing block."""
+    args = [absmodel.real_value(v) for v in call["args"]]
+    rt.RET[:] = [absmodel.real_value(call["ret"])]
+    rt.YS[:] = [absmodel.real_value(v) for v in call.get("ys", [])]
+    a0 = args[0] if args else None
+    g = M.g0(a0)
+    got = [next(g)] if rt.YS else []
+    keep_ret, keep_ys = list(rt.RET), list(rt.YS)
+
+    def finish():
+        rt.RET[:], rt.YS[:] = keep_ret, keep_ys
+        try:
+            while True:
+                got.append(next(g))
+        except StopIteration as e:
+            out = e.value
+        truth.setdefault(("g0", "a"), []).append(absmodel.abs_value(a0))
+        for v in got:
+            truth.setdefault(("g0", "yield"), []).append(absmodel.abs_value(v))
+        truth.setdefault(("g0", "return"), []).append(absmodel.abs_value(out))
+    return finish
 
 
 def perform(M, rt, call, truth):
@@ -292,15 +341,30 @@ def run_sound_case(case):
     os.environ.update(MTP_DB=db, MTP_K=str(case["k"]), MTP_RW=case["rw"])
     truth = {}
     try:
-        with monkeytype.trace(w["C"].CONFIG):
-            for call in case["calls"]:
-                perform(M, rt, call, truth)
+        if case.get("span_k1") is not None:
+            # a generator started in one tracing block (its own, larger TypedDict limit) and finished in the next one, whose
+            # settings are the case's: whatever is recorded is recorded by the second block and under ITS limit
+            first = [c for c in case["calls"] if c["f"] == "g0"][:1]
+            os.environ["MTP_K"] = str(case["span_k1"])
+            with monkeytype.trace(w["C"].CONFIG):
+                finishers = [begin_generator(M, rt, c, truth) for c in first]
+            os.environ["MTP_K"] = str(case["k"])
+            with monkeytype.trace(w["C"].CONFIG):
+                for fin in finishers:
+                    fin()
+                for call in case["calls"]:
+                    if not any(call is c for c in first):
+                        perform(M, rt, call, truth)
+        else:
+            with monkeytype.trace(w["C"].CONFIG):
+                for call in case["calls"]:
+                    perform(M, rt, call, truth)
         out, err = io.StringIO(), io.StringIO()
         glob = ["--disable-type-rewriting"] if case["flag"] == "--disable-type-rewriting" else []
         if case["flag"].startswith("--limit"):
             glob = case["flag"].split()
         sub = [case["flag"]] if case["flag"] and not glob else []
-        argv = ["-c", "mtp_config:CONFIG"] + glob + ["stub", "mtp_target"] + sub
+        argv = ["-c", "mtp_config:CONFIG_LATE" if case.get("late_config") else "mtp_config:CONFIG"] + glob + ["stub", "mtp_target"] + sub
         crashed = "NONE"
         try:
             rc = cli.main(argv, out, err)
@@ -451,7 +515,7 @@ FLAGS = ["", "--ignore-existing-annotations", "--omit-existing-annotations", "--
 NONE = absmodel.T("atom", "NoneType")
 
 
-def gen_sound(tier, seed, env_text):
+def gen_sound(tier, seed, env_text, pid=None):
     rng = random.Random(seed)
     U = lambda n: universe.export("MTInferExport", n, ["MTValues", "MTUniverse"], env_text)  # noqa: E731
     full1, small1, wide, tiny2 = U("full1"), U("small1"), U("wide"), U("tiny2")
@@ -607,6 +671,27 @@ def gen_sound(tier, seed, env_text):
                [{"f": "gm", "args": [dk("x", "y")], "ret": A("NoneType"), "ys": []}],
                [{"f": "gm", "args": [C("list", dk("x"))], "ret": A("NoneType"), "ys": []}]]
     add("the same object as argument and as return / yield value, changed in place in between", inplace, [0, 2, 3], ["NONE", "DEFAULT"], [""])
+    # calls of ONE function whose traces differ in ONE stored column only (what it yielded / returned / one argument), the
+    # differing values being records with different key sets: every call counts when keys become required or optional
+    shapes2 = [(dk("id", "name"), dk("id")), (dk("id"), dk("id", "name")), (dk("a"), dk("b")), (dk("a", "b", "c"), dk("a")),
+               (C("list", dk("x", "y")), C("list", dk("x"))), (dk("id"), A("int"))]
+    onecol = []
+    for s1, s2 in shapes2:
+        onecol.append([{"f": "g0", "args": [A("int")], "ret": A("NoneType"), "ys": [s1]}, {"f": "g0", "args": [A("int")], "ret": A("NoneType"), "ys": [s2]}])
+        onecol.append([{"f": "g0", "args": [A("int")], "ret": s1, "ys": [A("int")]}, {"f": "g0", "args": [A("int")], "ret": s2, "ys": [A("int")]}])
+        onecol.append([mk2("f0", A("int"), s1), mk2("f0", A("int"), s2)])
+        onecol.append([{"f": "f1", "args": [A("int")], "ret": s1, "ys": []}, {"f": "f1", "args": [A("int")], "ret": s2, "ys": []}])
+    add("two calls of one function that differ in one stored column only, by records with different key sets", onecol, [0, 3], ["NONE"], [""])
+    n0 = len(cases)
+    # (C06 only: a trace that begins in the middle of a call says nothing about the values seen before - soundness and
+    # tightness have no verdict for it - but the limit in force binds it all the same)
+    for a, ysv in () if pid != "C06" else ((dk("x", "y"), [dk("p"), dk("p", "q")]), (A("int"), [dk("p"), A("int")]), (C("list", dk("x")), [dk("x", "y", "z")]),
+                   (dk("x"), [A("int"), dk("y")])):
+        for k in (0, 2):
+            for extra in ([], [mk2("f0", dk("m"), A("int"))]):
+                cases.append({"type": "sound", "calls": [{"f": "g0", "args": [a], "ret": A("NoneType"), "ys": ysv}] + extra, "k": k, "rw": "NONE",
+                              "flag": "", "span_k1": 5})
+    plan.append({"family": "a generator started in one tracing block (limit 5) and finished in the next (the case's limit)", "cases": len(cases) - n0})
     ypool = [A("int"), Sx("s"), A("NoneType"), C("list", A("int")), C("tuple", Sx("s"), A("float")), absmodel.T("classobj", "mtfx.shapes.A"),
              A("mtfx.shapes.A"), C("set", A("int")), C("dict", P(A("int"), Sx("s"))), A("float")]
     add("one generator run yielding every ordered pair of 10 shapes (a generic first, one of its parameters later, ...)",
@@ -634,6 +719,8 @@ def gen_sound(tier, seed, env_text):
         [0], ["NONE", "DEFAULT"], [""])
     for i, c in enumerate(cases):
         c["tid"] = i + 1
+        if i % 6 == 1 and not c["flag"]:
+            c["late_config"] = True      # the stub command reads its settings from a config that is only final inside cli_context
     return cases, plan
 
 
@@ -800,7 +887,7 @@ def run_pipeline(pid, tier, seed, run, replay_case=None):
     elif pid == "C14":
         cases, plan = gen_same(tier, seed, env_text)
     else:
-        cases, plan = gen_sound(tier, seed, env_text)
+        cases, plan = gen_sound(tier, seed, env_text, pid)
         if pid == "C06":   # the k > 0 part of the enumeration is what matters here
             cases = [c for c in cases if c["k"] > 0 or c["tid"] % 4 == 0]
         if pid == "C05":   # tightness is stated for the inferred type before any rewriter runs
